@@ -106,6 +106,15 @@ CLAIMED = {
         note="Text needs digits, hence concrete payload pools (stated in the evidence); the assignment is unbounded.",
         tech="bounded exhaustive tree enumeration through the engine + z3 equivalence of tree and re-parsed tree",
         ref="DESIGN.md section 4 C04"),
+    "C05": dict(
+        text="Bounded symbolic execution of the real evaluate on trees whose constants and variable values are solver "
+             "variables with lazily decided Python type: returned values equal the exact result for every value on the path "
+             "(z3 validity; integers exact at any magnitude, so a 64-bit wrap is a counterexample), non-finite results only "
+             "where undefined, missing/None variables raise ValueError while present values (0 included) do not, equations "
+             "return the common value or raise only when the sides differ, no other exception.",
+        note="NOT claimed: the 'within a few ulps' IEEE clause (floats are exact reals in the model). numpy/math stubs as listed.",
+        tech="path-forking symbolic execution of evaluate + z3 validity against an independent exact evaluator (bounded tree size)",
+        ref="DESIGN.md section 4 C05, section 8"),
 }
 
 PENDING = {}
